@@ -285,6 +285,19 @@ def split_template(t):
     return out
 
 
+def strip_node(n):
+    while True:
+        k = n.get("k")
+        if k == "Block" and not n.get("stmts") and n.get("e"):
+            n = n["e"]
+        elif k == "Ref":
+            n = n["a"]
+        elif k == "Unary" and n.get("op") == "*":
+            n = n["a"]
+        else:
+            return n
+
+
 class Interp:
     def __init__(self, facts, max_depth=60):
         self.F = facts
@@ -968,6 +981,26 @@ class Interp:
         return self.builtin_method(name, cn, recv, args, n)
 
     def builtin_method(self, name, cn, recv, args, n):
+        # `iter.collect::<Option<Vec<_>>>()` / `Result<Vec<_>, _>`: the first None/Err wins
+        if name == "collect" and not args and isinstance(recv, ListV):
+            ty = self.F.ty(n) or ""
+            if ty.startswith(("std::option::Option<", "core::option::Option<", "Option<", "std::result::Result<", "core::result::Result<", "Result<")):
+                is_opt = "Option<" in ty.split("<", 1)[0] + "<"
+                out = []
+                for x in recv.items:
+                    if not isinstance(x, Var):
+                        return Unknown("collect of a non-variant element %r" % (x,))
+                    if x.path in NONE_PATHS or x.path in ERR_PATHS:
+                        return x
+                    if not (x.path in SOME_PATHS or x.path in OK_PATHS) or not x.args:
+                        return Unknown("collect of %r" % (x,))
+                    out.append(x.args[0])
+                return Var(SOME_PATHS[0] if is_opt else OK_PATHS[0], [ListV(out)])
+        if name == "map" and len(args) == 1 and isinstance(recv, Var) and (recv.path in SOME_PATHS or recv.path in NONE_PATHS):
+            if recv.path in NONE_PATHS:
+                return recv
+            r = self.apply(args[0], [recv.args[0]])
+            return r if is_unknown(r) else Var(SOME_PATHS[0], [r])
         if name in ("clone", "to_owned", "as_ref", "borrow", "as_str", "as_mut", "deref", "into", "to_vec", "iter", "into_iter", "collect", "cloned", "copied", "as_slice", "by_ref", "into_boxed", "to_boxed") and not args:
             if name == "deref" and isinstance(recv, Var):
                 d = self.deref(recv)
@@ -1013,6 +1046,38 @@ class Interp:
                 return Var(SOME_PATHS[0], [recv.items[0]]) if recv.items else Var(NONE_PATHS[0])
             if name == "rev" and not args:
                 return ListV(list(reversed(recv.items)))
+        if name == "fold" and isinstance(recv, ListV) and len(args) == 2:
+            acc = args[0]
+            for x in recv.items:
+                acc = self.apply(args[1], [acc, x])
+                if is_unknown(acc):
+                    return acc
+            return acc
+        if name in ("all", "any") and isinstance(recv, ListV) and len(args) == 1:
+            res = []
+            for x in recv.items:
+                r = self.apply(args[0], [x])
+                if not isinstance(r, bool):
+                    return Unknown("predicate not boolean: %r" % (r,))
+                res.append(r)
+            return all(res) if name == "all" else any(res)
+        if name == "enumerate" and isinstance(recv, ListV) and not args:
+            return ListV([(i, x) for i, x in enumerate(recv.items)])
+        if name in ("flat_map", "filter_map") and isinstance(recv, ListV) and len(args) == 1:
+            out = []
+            for x in recv.items:
+                r = self.apply(args[0], [x])
+                if is_unknown(r):
+                    return r
+                if isinstance(r, Var) and r.path in NONE_PATHS:
+                    continue
+                if isinstance(r, Var) and r.path in SOME_PATHS:
+                    out.append(r.args[0])
+                elif isinstance(r, ListV) and name == "flat_map":
+                    out.extend(r.items)
+                else:
+                    return Unknown("%s closure result %r" % (name, r))
+            return ListV(out)
         if name == "map" and isinstance(recv, ListV):
             out = []
             for x in recv.items:
@@ -1046,6 +1111,10 @@ class Interp:
                 return len(recv.items) == 0
             if isinstance(recv, (str,)):
                 return recv == ""
+            if isinstance(recv, Rope) and all(isinstance(x, str) for x in recv.pieces):
+                return recv.text() == ""
+            if isinstance(recv, Rope) and any(not isinstance(x, str) or x for x in recv.pieces):
+                return False
         if name == "len" and isinstance(recv, ListV):
             return len(recv.items)
         if name == "unwrap" and isinstance(recv, Var) and recv.args and (recv.path in OK_PATHS or recv.path in SOME_PATHS):
@@ -1054,6 +1123,8 @@ class Interp:
             return abs(recv)
         if name == "powi" and isinstance(recv, (int, float)) and len(args) == 1 and isinstance(args[0], int):
             return float(recv) ** args[0]
+        if name == "is_zero" and not args and isinstance(recv, (int, float)) and not isinstance(recv, bool):
+            return recv == 0
         if name in ("is_nan",) and isinstance(recv, float):
             return recv != recv
         if name in ("is_finite",) and isinstance(recv, (int, float)):
@@ -1088,6 +1159,26 @@ class Interp:
             env[lhs["id"]] = v
             return UNIT
         return Unknown("assignment to non-local")
+
+    def ev_AssignOp(self, n, env):
+        rhs = self.ev(n["rhs"], env)
+        lhs = strip_node(n["lhs"])
+        op = n["op"].rstrip("=")
+        def combine(cur):
+            if is_unknown(cur) or is_unknown(rhs):
+                return Unknown("assign-op on unknown")
+            if isinstance(cur, (int, float)) and isinstance(rhs, (int, float)) and not isinstance(cur, bool):
+                return {"+": cur + rhs, "-": cur - rhs, "*": cur * rhs, "/": (cur / rhs if rhs else Unknown("div0"))}.get(op, Unknown("assign-op " + op))
+            return Unknown("assign-op on %r" % (cur,))
+        if lhs.get("k") == "Path" and lhs.get("res") == "local":
+            env[lhs["id"]] = combine(env.get(lhs["id"], Unknown("unbound")))
+            return UNIT
+        if lhs.get("k") == "Field":
+            base = self.ev(lhs["a"], env)
+            if isinstance(base, Var) and lhs["name"] in base.fields:
+                base.fields[lhs["name"]] = combine(base.fields[lhs["name"]])
+                return UNIT
+        return Unknown("assign-op target")
 
     def ev_LetExpr(self, n, env):
         v = self.ev(n["init"], env)
